@@ -527,6 +527,21 @@ var flagEntries = []flagEntry{
 // and the model. A batch that fails is re-run value by value to find the culprit.
 func (h *harness) flagBatch(c *run.Ctx, fe flagEntry, vals []string) {
 	s := h.s
+	// The memory oracle below reads the resident size of the whole flag-parsing PROCESS. What the property bounds is
+	// the memory ONE parse needs for its input; a process that has parsed tens of thousands of values has a heap
+	// high-water mark that says nothing about any of them (the thorough tier's 20 000-value batches reached 1.3 GiB).
+	// So a process is given at most a few thousand values.
+	const maxPerProcess = 2500
+	if len(vals) > maxPerProcess {
+		for from := 0; from < len(vals); from += maxPerProcess {
+			to := from + maxPerProcess
+			if to > len(vals) {
+				to = len(vals)
+			}
+			h.flagBatch(c, fe, vals[from:to])
+		}
+		return
+	}
 	ops := make([]string, len(vals))
 	for i, v := range vals {
 		ops[i] = fe.implOp + " " + fe.flagArgs(v)
